@@ -106,7 +106,7 @@ theorem ev_send {k : Kind} {sel : Sel} {resp : Bool} {s : State} {j : XJ} (hk : 
     rw [w4 q m1]
     simp only [Nat.zero_le, Nat.sub_zero, true_and, hp, Option.some.injEq, exists_eq_left']
   -- the judge: the send completes, `accept`
-  have hsendable : sendable s.uwq = true := by simp [sendable, hI.uwq.rdr ho hc]
+  have hsendable : sendable s.uwq = true := by simp [sendable, hI.uwq.rdr ho hc, hI.uwq.putq]
   obtain ⟨acc1, ea, hacc1⟩ := hac { j with sends := [] } ⟨a, m.hdr, m.body, mode == .nb⟩ hc0.liveN
   have hdone : xDone resp { j with sends := j.sends ++ [⟨a, m.hdr, m.body, mode == .nb⟩] } a 0 none false =
       { j with sends := [], acc := acc1 } := by
